@@ -16,7 +16,9 @@
    (Model/Track.v), compared with the library by the trk topic, and for Track2 proved to show the track with the PAN
    masked (C18_track2_filter), and likewise for Track1 and Track3 (C18_track1_filter, C18_track3_filter: every
    packable well-formed track shows its rendering with the PAN masked and nothing else changed). A track the field
-   cannot parse again is shown by its first and last four characters (repair of F31; the fall-back branch of t_filter). *)
+   cannot parse again is shown by its first and last four characters (repair of F31; the fall-back branch of t_filter);
+   C18_track_filter_total: every output of a track filter is the rendering of a track whose PAN went through the PAN
+   filter, or the PAN filter applied to the whole text - never the raw text. *)
 From Coq Require Import List Bool Strings.String.
 Import ListNotations.
 From Iso Require Import Model.Base Model.Describe Proofs.DescribeProofs Gen.ErrorSites Gen.Filters.
@@ -126,6 +128,20 @@ Theorem C18_track3_filter : forall p t b inp, coherent_pspec p -> t3_dom t ->
   t_filter T3 p inp t = tk_fc t ++ pan_filter (tk_pan t) ++ eqsign ++ tk_dd t.
 Proof. exact track3_filter_masks. Qed.
 Print Assumptions C18_track3_filter.
+
+(* every output of a track filter, whatever the field holds and whatever text it was given: either the rendering of a
+   track whose PAN component went through the PAN filter, or - when the packed track cannot be parsed again - the PAN
+   filter applied to the whole text (first and last four characters; the repair of F31). The raw text is never printed. *)
+Definition mask_pan (tr : tstate) : tstate :=
+  {| tk_fixed := tk_fixed tr; tk_fc := tk_fc tr; tk_pan := pan_filter (tk_pan tr); tk_sep := tk_sep tr;
+     tk_name := tk_name tr; tk_exp := tk_exp tr; tk_svc := tk_svc tr; tk_dd := tk_dd tr |}.
+Theorem C18_track_filter_total : forall k p inp t,
+  (exists tr, t_filter k p inp t = t_render k (mask_pan tr)) \/ t_filter k p inp t = pan_filter inp.
+Proof.
+  intros k p inp t. unfold t_filter. destruct (t_pack k p t) as [raw|e|q|]; try (left; exists t_empty; reflexivity).
+  destruct (t_unpack k p t_empty raw) as [tr [n|e|q|]]; try (right; reflexivity). left. exists tr. reflexivity.
+Qed.
+Print Assumptions C18_track_filter_total.
 
 (* the premises are satisfiable: 4111111111111111=2512101123456 under ASCII / LL 37 *)
 Definition p35 : pspec := {| ps_kind := KString; ps_enc := EncASCII; ps_pref := PVar PfASCII 2; ps_len := 37; ps_pad := PadNone; ps_packer := PkDefault |}.
